@@ -165,7 +165,7 @@ def hit (rx : Str → Str → Option Bool) (m : Method) (term : Str) (c : Scalar
   searchMatches rx m c term == .ok true
 
 /-- The positions `i, i+1, …` of the candidates that satisfy `p`. -/
-def positions (p : Scalar → Bool) : List Scalar → Nat → List Nat
+def positions {α : Type} (p : α → Bool) : List α → Nat → List Nat
   | [], _ => []
   | c :: cs, i => if p c then i :: positions p cs (i + 1) else positions p cs (i + 1)
 
@@ -198,13 +198,13 @@ theorem inverted_is_complement (rx : Str → Str → Option Bool) (m : Method) (
   congr 2; funext c; cases hit rx m term c <;> rfl
 
 /-- Positions are a partition: every position is yielded by exactly one of the two searches. -/
-theorem positions_partition (p : Scalar → Bool) : ∀ (cs : List Scalar) (i j : Nat),
+theorem positions_partition {α : Type} (p : α → Bool) : ∀ (cs : List α) (i j : Nat),
     i ≤ j → j < i + cs.length →
       ((j ∈ positions p cs i ∧ j ∉ positions (fun c => !p c) cs i) ∨
        (j ∉ positions p cs i ∧ j ∈ positions (fun c => !p c) cs i))
   | [], i, j, h1, h2 => by simp at h2; omega
   | c :: cs, i, j, h1, h2 => by
-    have lower : ∀ (q : Scalar → Bool) (cs : List Scalar) (k : Nat), ∀ x ∈ positions q cs k, k ≤ x := by
+    have lower : ∀ (q : α → Bool) (cs : List α) (k : Nat), ∀ x ∈ positions q cs k, k ≤ x := by
       intro q cs
       induction cs with
       | nil => intro k x hx; simp [positions] at hx
@@ -237,6 +237,49 @@ theorem inverted_list_site (rx : Str → Str → Option Bool) (inv : Bool) (m : 
   simp only [hn, Bool.false_eq_true, if_false]
   exact scan_eq rx inv m term cs 0 h
 
+/-! ## The named-attribute site over a list of records -/
+
+/-- "The record matches": it has a value at the attribute and that value matches.  A record with no
+value at the attribute (`none`) matches no plain search, whatever the operator and the term. -/
+def hitOpt (rx : Str → Str → Option Bool) (m : Method) (term : Str) : Option Scalar → Bool
+  | none => false
+  | some c => hit rx m term c
+
+theorem attr_scan_eq (rx : Str → Str → Option Bool) (inv : Bool) (m : Method) (term : Str) :
+    ∀ (cs : List (Option Scalar)) (i : Nat), (∀ c, some c ∈ cs → WellFormed rx m c term = true) →
+      searchAttrScan rx inv m term cs i = (positions (fun o => hitOpt rx m term o != inv) cs i, none)
+  | [], _, _ => rfl
+  | none :: cs, i, h => by
+    have ih := attr_scan_eq rx inv m term cs (i + 1) (fun c' hc' => h c' (by simp [hc']))
+    unfold searchAttrScan positions
+    rw [ih]
+    cases inv <;> simp [yieldIf, hitOpt]
+  | some c :: cs, i, h => by
+    obtain ⟨b, hb⟩ := matches_total rx m c term (h c (by simp))
+    have ih := attr_scan_eq rx inv m term cs (i + 1) (fun c' hc' => h c' (by simp [hc']))
+    unfold searchAttrScan positions
+    rw [hb, ih]
+    simp only [hitOpt, hit, hb]
+    cases b <;> cases inv <;> simp [yieldIf]
+
+/-- **C12 (c₃)**.  A plain search on a named attribute over a list of records yields exactly the
+positions of the records that HAVE a value at the attribute and whose own value matches, in order:
+each record is answered from its own value, a record without the attribute is never selected. -/
+theorem attr_plain_is_filter (rx : Str → Str → Option Bool) (m : Method) (term : Str)
+    (cs : List (Option Scalar)) (h : ∀ c, some c ∈ cs → WellFormed rx m c term = true) :
+    searchAttrScan rx false m term cs 0 = (positions (fun o => hitOpt rx m term o) cs 0, none) := by
+  rw [attr_scan_eq rx false m term cs 0 h]
+  congr 2; funext o; cases hitOpt rx m term o <;> rfl
+
+/-- **C12 (c₄)**.  The inverted search on a named attribute yields exactly the records the plain
+search does not yield - those whose own value does not match and those with no value there
+(`positions_partition` says the two results partition the list). -/
+theorem attr_inverted_is_complement (rx : Str → Str → Option Bool) (m : Method) (term : Str)
+    (cs : List (Option Scalar)) (h : ∀ c, some c ∈ cs → WellFormed rx m c term = true) :
+    searchAttrScan rx true m term cs 0 = (positions (fun o => !hitOpt rx m term o) cs 0, none) := by
+  rw [attr_scan_eq rx true m term cs 0 h]
+  congr 2; funext o; cases hitOpt rx m term o <;> rfl
+
 /-! ## Witnesses: the hypotheses are met, and the typed rules are the intended ones -/
 
 def noRegex : Str → Str → Option Bool := fun _ _ => none
@@ -267,5 +310,11 @@ example : searchScan noRegex false .gt "4".toList [.int 5, .int 3, .str "x".toLi
 example : pyStr (.float 1 16) = "1e+16".toList := by decide +kernel
 example : pyStr (.float 15 (-6)) = "1.5e-05".toList := by decide +kernel
 example : typedValue "1_0.50e1".toList = .float 105 0 := by decide +kernel
+
+/-- the record without the attribute is not selected although it follows a matching record; it belongs to the inverted result -/
+example : searchAttrScan noRegex false .equals "8080".toList [some (.int 8080), none, some (.int 9090), some (.int 8080), none] 0
+    = ([0, 3], none) := by decide +kernel
+example : searchAttrScan noRegex true .equals "8080".toList [some (.int 8080), none, some (.int 9090), some (.int 8080), none] 0
+    = ([1, 2, 4], none) := by decide +kernel
 
 end Ypv.C12
